@@ -681,7 +681,14 @@ class TransferManager(BaseManager):
     async def _prepare_download_path(self, transfer: Transfer):
         if transfer.local_path is None:
             download_path, file_path = self._shares_manager.calculate_download_path(transfer.remote_path)
-            transfer.local_path = os.path.join(download_path, file_path)
+            local_path = os.path.join(download_path, file_path)
+            # Reserve the chosen name before the first suspension point: the
+            # file is only opened later on and another download of an equally
+            # named file has to see the name as taken
+            os.makedirs(download_path, exist_ok=True)
+            with open(local_path, 'ab'):
+                pass
+            transfer.local_path = local_path
 
         path, _ = os.path.split(transfer.local_path)
         await self._shares_manager.create_directory(path)
